@@ -557,6 +557,13 @@ pub fn run(args: &Args) {
             out.finish();
             std::process::exit(if failed { 1 } else { 0 });
         }
+        if f["kind"] == "config_named_caller" {
+            probe_config_named_callers(&mut out);
+            for f in &out.monitor_failures { println!("MONITOR-FAIL {}", f["what"]); }
+            let failed = !out.monitor_failures.is_empty();
+            out.finish();
+            std::process::exit(if failed { 1 } else { 0 });
+        }
         if f["kind"] == "lookalike_caller" {
             probe_lookalike_callers(&mut out);
             for f in &out.monitor_failures { println!("MONITOR-FAIL {}", f["what"]); }
@@ -583,6 +590,7 @@ pub fn run(args: &Args) {
     probe_router_without_admin(&mut out);
     probe_nested_calls(&mut out);
     probe_lookalike_callers(&mut out);
+    probe_config_named_callers(&mut out);
     // 0. the ownership transfers the later phases rely on must be possible for the owner
     for ph in [1u8, 2u8] {
         let x = world16(ph);
@@ -785,6 +793,55 @@ fn probe_lookalike_callers(out: &mut Out) {
     }
 }
 
+// ---- being NAMED in a contract's configuration is not being its owner ----------------------------------------------------------
+// Every address a contract's Config answer names (fee collector, fee distributor, router, factories, DAO payee, bonding contract, ...)
+// other than the owner sends every owner-only variant of that contract, with every payload of the matrix: refused, nothing changes.
+// (The collector's DAO payee is set to a real address first - it is empty after instantiation.)
+fn probe_config_named_callers(out: &mut Out) {
+    fn strings(v: &Value, acc: &mut Vec<String>) {
+        match v { Value::String(s) => acc.push(s.clone()), Value::Array(a) => a.iter().for_each(|x| strings(x, acc)), Value::Object(o) => o.values().for_each(|x| strings(x, acc)), _ => {} }
+    }
+    for c in ALL_C {
+        let probe = world16(0);
+        let owner_only: Vec<&'static str> = { let mut v: Vec<&'static str> = payloads(&probe, c, &admin()).iter().map(|p| p.variant).filter(|v| property_need(c, v) == Some(Need::Owner)).collect(); v.dedup(); v };
+        if owner_only.is_empty() { continue; }
+        let prep = |x: &mut W16| {
+            if c == C::Collector {
+                let t = x.addr(C::Collector);
+                let _ = exec_json(&mut x.w.app, &admin(), &t, &json!({"update_config": {"owner": null, "pool_router": null, "fee_distributor": null, "pool_factory": null, "vault_factory": null,
+                    "take_rate": "0.01", "take_rate_dao_address": "daopayee", "is_take_rate_active": true}}), &[]);
+            }
+        };
+        let mut x0 = world16(0); prep(&mut x0);
+        let cfg: Result<Value, _> = x0.w.app.wrap().query_wasm_smart(&x0.addr(c), &json!({"config": {}}));
+        let Ok(cfg) = cfg else { continue };
+        let mut named = vec![]; strings(&cfg, &mut named);
+        let owner = cfg.get("owner").and_then(|o| o.as_str()).unwrap_or("").to_string();
+        named.retain(|s| s != &owner && s.len() >= 3 && s.chars().all(|ch| ch.is_ascii_alphanumeric()) && s.chars().any(|ch| ch.is_ascii_alphabetic()) && !s.chars().next().unwrap().is_ascii_digit());
+        named.sort(); named.dedup();
+        for who in named {
+            for variant in &owner_only {
+                let ks: Vec<usize> = payloads(&x0, c, &Addr::unchecked(&who)).iter().filter(|p| p.variant == *variant).map(|p| p.k).collect();
+                for k in ks {
+                    let mut x = world16(0); prep(&mut x);
+                    let a = Addr::unchecked(&who);
+                    let Some(pl) = payloads(&x, c, &a).into_iter().find(|p| p.variant == *variant && p.k == k) else { continue };
+                    let before = full_snapshot(&x);
+                    let target = x.addr(c);
+                    let app = &mut x.w.app;
+                    let r = run_catch(|| exec_json(app, &a, &target, &pl.msg, &pl.funds), |_e| E_OTHER);
+                    let accepted = matches!(r, Outcome::Ok(_));
+                    out.monitor_evals += 1;
+                    out.count(&format!("config_named:{}:{}", c.coq(), if accepted { "accepted" } else { "rejected" }));
+                    let replay = json!({"kind": "config_named_caller", "contract": c.coq(), "variant": variant, "payload": k, "caller_named_in_config": who});
+                    if accepted { out.monitor_fail("C16", &format!("{} {} (owner only) was accepted from `{}`, an address the contract's configuration merely names", c.coq(), variant, who), replay); }
+                    else if full_snapshot(&x) != before { out.monitor_fail("C16", &format!("a refused {} {} from `{}` changed state", c.coq(), variant, who), replay); }
+                }
+            }
+        }
+    }
+}
+
 // ---- ownership-transfer histories on every ownable contract -------------------------------------------------------------------
 const OWNABLE: [C; 12] = [C::Factory, C::IncentiveFactory, C::Helper, C::VaultFactory, C::VaultRouter, C::Collector, C::Distributor, C::Lair, C::EpochManager, C::Pair, C::Trio, C::Vault];
 fn people() -> Vec<Addr> { vec![admin(), Addr::unchecked(NEW_ADMIN), Addr::unchecked(STRANGER), Addr::unchecked(USER), Addr::unchecked(BOB)] }
@@ -810,11 +867,21 @@ fn run_one_history(out: &mut Out, c: C, h: &[(i64, Option<i64>)], record: bool) 
     let mut obs: Vec<String> = vec![];
     let mut owner = initial;
     let mut ok_all = true;
-    for (sender, newo) in h {
+    for (k_attempt, (sender, newo)) in h.iter().enumerate() {
         let s = addr_of(&x, c, *sender);
         let to = newo.map(|n| addr_of(&x, c, n).to_string());
         let (t, mut m) = x.transfer_msg(c, to.as_deref().unwrap_or("x"));
         if to.is_none() { let key = if c == C::Vault { "new_owner" } else { "owner" }; m["update_config"][key] = Value::Null; }
+        // every second attempt also names the other updatable fields with the values the contract reports now (a hand-over need not travel
+        // alone): fields of the message that are null and have a same-named, non-empty entry in the contract's Config answer
+        if k_attempt % 2 == 1 && !matches!(c, C::Pair | C::Trio | C::Vault) {
+            let cfg: Result<Value, _> = x.w.app.wrap().query_wasm_smart(&t, &json!({"config": {}}));
+            if let (Ok(cfg), Some(fields)) = (cfg, m["update_config"].as_object_mut()) {
+                for (k, v) in fields.iter_mut() {
+                    if v.is_null() && k != "owner" { if let Some(cur) = cfg.get(k) { if !cur.is_null() && cur.as_str() != Some("") { *v = cur.clone(); } } }
+                }
+            }
+        }
         let before = full_snapshot(&x);
         let app = &mut x.w.app;
         let r = run_catch(|| exec_json(app, &s, &t, &m, &[]), |_e| E_OTHER);
